@@ -20,7 +20,12 @@ import (
 	ctypes "github.com/ovrclk/akash/x/cert/types"
 )
 
-var authVersionOID = asn1.ObjectIdentifier{2, 23, 133, 2, 6}
+var (
+	authVersionOID = asn1.ObjectIdentifier{2, 23, 133, 2, 6}
+	oidCN          = asn1.ObjectIdentifier{2, 5, 4, 3}
+	oidO           = asn1.ObjectIdentifier{2, 5, 4, 10}
+	oidOU          = asn1.ObjectIdentifier{2, 5, 4, 11}
+)
 
 const year = 365 * 24 * time.Hour
 
@@ -37,8 +42,14 @@ const (
 	// self-signed with the subject's own key, subject CN = tenant, but the issuer field NAMES the other
 	// tenant (the chain only checks the subject CN against the publishing account)
 	kSelfIssuerTenant certKind = "self-signed-issuer-names-other-tenant"
-	kCNNotBech32      certKind = "cn-not-bech32"    // subject CN is not an address
-	kCNOtherPrefix    certKind = "cn-cosmos-prefix" // bech32 but not an akash account address
+	// MULTI-VALUED subjects. Go's parser reports the LAST common-name attribute as Subject.CommonName,
+	// and so do x/cert and VerifyPeerCertificate; the publishing account is that last CN.
+	kMultiCNOtherFirst  certKind = "subject-cn-other-tenant-then-self" // (CN=other tenant, CN=self): published by self
+	kMultiCNTenantFirst certKind = "subject-cn-self-then-other-tenant" // (CN=self, CN=other tenant): self tries to publish it; the chain must refuse
+	kExtraRDNBefore     certKind = "subject-o-ou-authversion-then-cn"  // (O, OU, auth-version, CN=self)
+	kExtraRDNAfter      certKind = "subject-cn-then-o-ou-authversion"  // (CN=self, O, OU, auth-version)
+	kCNNotBech32        certKind = "cn-not-bech32"                     // subject CN is not an address
+	kCNOtherPrefix      certKind = "cn-cosmos-prefix"                  // bech32 but not an akash account address
 )
 
 type madeCert struct {
@@ -67,7 +78,9 @@ type certSpec struct {
 	// FakeIssuerCN: signed with the certificate's OWN key (cryptographically self-signed) while the
 	// issuer name says something else
 	FakeIssuerCN string
-	DNS          []string
+	// Names, when set, is the complete subject as a sequence of single-attribute RDNs in this order
+	Names []pkix.AttributeTypeAndValue
+	DNS   []string
 }
 
 func mustKey() *ecdsa.PrivateKey {
@@ -92,6 +105,9 @@ func makeCert(sp certSpec) *madeCert {
 		ExtKeyUsage:           sp.Usage,
 		BasicConstraintsValid: true,
 		DNSNames:              sp.DNS,
+	}
+	if len(sp.Names) > 0 {
+		tpl.Subject = pkix.Name{ExtraNames: sp.Names}
 	}
 	parent, signer := tpl, key
 	var extra [][]byte
@@ -161,6 +177,14 @@ func specFor(kind certKind, cn, otherCN string, serial *big.Int, now time.Time) 
 		sp.IssuerCN = otherCN
 	case kSelfIssuerTenant:
 		sp.FakeIssuerCN = otherCN
+	case kMultiCNOtherFirst:
+		sp.Names = []pkix.AttributeTypeAndValue{{Type: oidCN, Value: otherCN}, {Type: oidCN, Value: cn}, {Type: authVersionOID, Value: "v0.0.1"}}
+	case kMultiCNTenantFirst:
+		sp.Names = []pkix.AttributeTypeAndValue{{Type: oidCN, Value: cn}, {Type: oidCN, Value: otherCN}, {Type: authVersionOID, Value: "v0.0.1"}}
+	case kExtraRDNBefore:
+		sp.Names = []pkix.AttributeTypeAndValue{{Type: oidO, Value: "acme"}, {Type: oidOU, Value: "ops"}, {Type: authVersionOID, Value: "v0.0.1"}, {Type: oidCN, Value: cn}}
+	case kExtraRDNAfter:
+		sp.Names = []pkix.AttributeTypeAndValue{{Type: oidCN, Value: cn}, {Type: oidO, Value: "acme"}, {Type: oidOU, Value: "ops"}, {Type: authVersionOID, Value: "v0.0.1"}}
 	case kCNNotBech32:
 		sp.CN = "tenant-" + cn[len(cn)-6:]
 	case kCNOtherPrefix:
